@@ -416,9 +416,12 @@ def body(ctx):
         role = classify(what, e0, cex_in)
         takes = None
         if what == 'early-drop':
-            takes = [None] * (len(cex_in) - 1) + [st.roots['take']]
-            # after the early drop, feed one more in-order confirmation and compare with the reference
-            nxt = max([e0] + [t + 1 for (_, t, _) in cex_in])
+            # after the early drop, feed one more in-order confirmation (the reference's next expected tag):
+            # a smoother left in a different state answers it differently
+            per = py_oracle(e0, cex_in)
+            frontier = e0 + sum(len(p) for p in per)
+            cex_in = cex_in + [(0, frontier, False)]
+            takes = [None] * (len(cex_in) - 2) + [st.roots['take'], None]
         desc = {'expected0': e0, 'inputs(kind 0=ack 1=nack, tag, multiple)': cex_in, 'engine_outputs(kind, tag)': outs, 'what': what, 'info': info}
         test = make_replay(e0, cex_in, takes, role)
         ctx.report(role, f"ConfirmSmoother({e0}) fed {cex_in}: outputs differ from the reference ({what})", desc, test)
